@@ -516,7 +516,17 @@ where
                 None => Ok(Outcome::Skipped),
             },
             Op::RecvTree { tree } => {
-                let got = mail.boxes.lock().unwrap()[tid].pop_front();
+                // Non-blocking receive with a bounded number of polite
+                // retries: each retry is a scheduling point, so whether the
+                // tree has arrived is decided by the schedule, and the
+                // simulator cannot deadlock itself.
+                let mut got = mail.boxes.lock().unwrap()[tid].pop_front();
+                let mut tries = 0;
+                while got.is_none() && tries < 48 {
+                    tries += 1;
+                    ctx.yield_point(EventKind::Handoff);
+                    got = mail.boxes.lock().unwrap()[tid].pop_front();
+                }
                 match got {
                     Some((t, lim, ft)) => {
                         if let Some(old) = trees.insert(
